@@ -113,6 +113,30 @@ theorem C04_ifaceRemove_returns_receiver {w : World} (hw : Wf w) {p : Nat} (hp :
     (w.strRemoveI p i).2 = p ∧ Wf (w.strRemoveI p i).1 ∧ (w.strRemoveI p i).1.sets = w.sets :=
   let r := strRemoveI_wf hw hp i; ⟨r.2.1, r.1, r.2.2.2.1⟩
 
+/-- interface{} `Remove(i)` writes at most ONE existing backing array — the receiver's — and ONE stream cell —
+    the receiver: every other array (hence every slice/stream over another array) and every other stream
+    header is exactly what it was; map objects and set cells are not touched at all. -/
+theorem C04_ifaceRemove_frame (w : World) (p : Nat) (i : Int) :
+    (∀ a, a ≠ (w.strHdr p).arr → a < w.arrs.length → (w.strRemoveI p i).1.arrAt a = w.arrAt a) ∧
+    (∀ q, q ≠ p → (w.strRemoveI p i).1.strHdr q = w.strHdr q) ∧
+    (w.strRemoveI p i).1.maps = w.maps ∧ (w.strRemoveI p i).1.sets = w.sets := by
+  unfold strRemoveI
+  simp only
+  split
+  · unfold appendSlice
+    split
+    · refine ⟨?_, ?_, rfl, rfl⟩
+      · intro a ha _
+        simp [setStrHdr, writeArr, arrAt, List.getD_eq_getElem?_getD, Ne.symm ha]
+      · intro q hq
+        simp [setStrHdr, writeArr, strHdr, List.getD_eq_getElem?_getD, Ne.symm hq]
+    · refine ⟨?_, ?_, rfl, rfl⟩
+      · intro a _ hlt
+        simp [setStrHdr, allocArr, arrAt, List.getD_eq_getElem?_getD, List.getElem?_append_left hlt]
+      · intro q hq
+        simp [setStrHdr, allocArr, strHdr, List.getD_eq_getElem?_getD, Ne.symm hq]
+  · exact ⟨fun _ _ _ => rfl, fun _ _ => rfl, rfl, rfl⟩
+
 /-! ### results: the elements the sequence definition prescribes -/
 
 theorem C04_newStream_content (w : World) (l : List Int) (tail : Nat) :
